@@ -73,9 +73,11 @@ def gen_plan(rng, tier):
             op.update({"op": "matmul", "partner": rng.choice(["matrix", "corr"]), "order": rng.choice(["LR", "RL"]), "j": rng.randrange(64), "m": rng.randrange(64)})
         elif r < 0.94:
             op.update({"op": rng.choice(["correlate", "reweight"]), "partner": rng.choice(["obs", "corr"]), "j": rng.randrange(64), "all_configs": rng.random() < 0.5})
-        elif r < 0.97:
+        elif r < 0.955:
+            op.update({"op": rng.choice(["deriv", "second_deriv"]), "variant": rng.randrange(4)})
+        elif r < 0.975:
             op.update({"op": "repr", "pr": rng.randrange(64), "how": rng.choice(["repr", "print", "str"])})
-        elif r < 0.985:
+        elif r < 0.987:
             op.update({"op": rng.choice(["set_prange", "gamma_method"]), "pr": rng.randrange(64)})
         else:
             op.update({"op": "interrupt", "f": rng.choice(["add", "mul", "neg", "roll", "symmetric", "sin"]), "j": rng.randrange(64), "frac": round(rng.random(), 4)})
@@ -533,6 +535,33 @@ def run_op(ctx, op, C, state, pe):
     if kind == "roll":
         dt = op["dt"]
         return judge(ctx, "roll", "dt", lambda: C.roll(dt), lambda: [A[(t - dt) % T] for t in range(T)], N, tw, index_transform=True)
+    if kind in ("deriv", "second_deriv"):
+        # finite differences as documented: linear combinations of neighbouring timeslices, undefined where one of the
+        # timeslices entering the stencil is undefined (and at the border the stencil does not fit into)
+        if N != 1 or content_kind_of(C, pe) == "cplx":
+            raise Skip()
+        if kind == "deriv":
+            var = ["symmetric", "forward", "backward", "improved"][op["variant"] % 4]
+            sten = {"symmetric": {-1: -0.5, 1: 0.5}, "forward": {0: -1.0, 1: 1.0}, "backward": {-1: -1.0, 0: 1.0},
+                    "improved": {-2: 1 / 12, -1: -8 / 12, 1: 8 / 12, 2: -1 / 12}}[var]
+        else:
+            var = ["symmetric", "big_symmetric", "improved", "symmetric"][op["variant"] % 4]
+            sten = {"symmetric": {-1: 1.0, 0: -2.0, 1: 1.0}, "big_symmetric": {-2: 0.25, 0: -0.5, 2: 0.25},
+                    "improved": {-2: -1 / 12, -1: 16 / 12, 0: -30 / 12, 1: 16 / 12, 2: -1 / 12}}[var]
+
+        def model():
+            out = []
+            for t in range(T):
+                if any(not (0 <= t + k < T) or undefined(A[t + k], 1) for k in sten):
+                    out.append(None)
+                    continue
+                acc = None
+                for k in sorted(sten):
+                    term = ew(lambda x: sten[k] * x, A[t + k])
+                    acc = term if acc is None else ew(lambda x, y: x + y, acc, term)
+                out.append(acc)
+            return out
+        return judge(ctx, kind, var, lambda: getattr(C, kind)(var), model, 1, tw, index_transform=True, atol=opscale(C, 8.0))
     if kind == "reverse":
         return judge(ctx, "reverse", "-", lambda: C.reverse(), lambda: [A[T - 1 - t] for t in range(T)], N, tw, index_transform=True)
     if kind == "thin":
